@@ -126,7 +126,7 @@ theorem parse_kernels_total (text : Proto.Cps) (doC : Bool) :
       intro t ht
       obtain ⟨it, hit, rfl⟩ := List.mem_map.mp ht
       exact hl it hit
-    have hs := MediaTotal.parseL_supported false false _ {} hdom
+    have hs := MediaTotal.parseL_supported true false _ {} hdom
     unfold ParseAll.mediaCall ParseAll.mediaRun
     split
     · exact ⟨_, rfl⟩
